@@ -1,7 +1,7 @@
 (* C02 — Inserted values are escaped and cannot change the markup structure. Theorems only.
-   (The structure clause is additionally checked on the implementation by re-scanning rendered
-   outputs for pairs of inserted strings: exploration, see DESIGN.md.) *)
-From Tpl Require Import Html.Exec Proofs.ExecSpec Proofs.EscapeProps Proofs.EmitProps.
+   (The structure clause is a theorem about the scanner model — structure_invariant below — and is additionally checked
+   on the implementation by re-scanning rendered outputs for pairs of inserted strings.) *)
+From Tpl Require Import Html.Scan Html.Exec Proofs.ExecSpec Proofs.EscapeProps Proofs.EmitProps Proofs.HoleSim Proofs.HoleInvariant Proofs.HoleRaw Proofs.HoleEscape.
 Open Scope N_scope.
 
 (* an HTML consumer reads back exactly the evaluated string *)
@@ -46,6 +46,64 @@ Theorem dynattr_emits_escape : forall mask ctx n attrs a ls t st cmd v lg,
 Proof. intros; eapply EmitProps.dynattr_emits_escape; eassumption. Qed.
 End C02.
 Print Assumptions dynattr_emits_escape.
+
+(* ---- the structure clause: "the sequence of tags and attribute names in the output is the same whatever string is
+   inserted".  A consumer tokenising  pre ++ escape v ++ post , where the insertion point is in text position (not inside a
+   raw-text element) or inside a quoted attribute value, finds the same tags with the same attribute names for every v
+   (and succeeds for one v iff it succeeds for every other).  [compile] is the directive-value compiler of the scanner; it is
+   irrelevant for rendered output (no directives), so the closed form takes the compiler that accepts everything. *)
+Theorem structure_invariant : forall (is_space : rune -> bool) (to_lower : rune -> rune) (text_tags : list str) (attr_prefix pre post v1 v2 : str),
+  let run := fold_left (step is_space to_lower text_tags attr_prefix (fun _ => true)) in
+  let scan := scan is_space to_lower text_tags attr_prefix (fun _ => true) in
+  text_ctx to_lower text_tags (run pre init) \/ (exists q, attr_ctx q (run pre init)) ->
+  ((exists toks, scan (pre ++ escape v1 ++ post) = inl toks) <-> (exists toks, scan (pre ++ escape v2 ++ post) = inl toks)) /\
+  (forall toks1 toks2, scan (pre ++ escape v1 ++ post) = inl toks1 -> scan (pre ++ escape v2 ++ post) = inl toks2 ->
+     tag_struct toks1 = tag_struct toks2).
+Proof. exact HoleEscape.escaped_insert_structure_nocompile. Qed.
+(* the general statements: any two '<'-free strings in text position — everything but the one text token that holds
+   the insertion is equal up to source positions ... *)
+Theorem text_hole_invariant : forall is_space to_lower text_tags attr_prefix (compile : attr -> bool),
+  (forall a1 a2, a_name a1 = a_name a2 -> a_value a1 = a_value a2 -> compile a1 = compile a2) ->
+  forall pre s1 s2 post,
+  text_ctx to_lower text_tags (fold_left (step is_space to_lower text_tags attr_prefix compile) pre init) ->
+  ~ In cLT s1 -> ~ In cLT s2 ->
+  (exists e, scan is_space to_lower text_tags attr_prefix compile (pre ++ s1 ++ post) = inr e /\
+             scan is_space to_lower text_tags attr_prefix compile (pre ++ s2 ++ post) = inr e) \/
+  (exists toks1 toks2,
+     scan is_space to_lower text_tags attr_prefix compile (pre ++ s1 ++ post) = inl toks1 /\
+     scan is_space to_lower text_tags attr_prefix compile (pre ++ s2 ++ post) = inl toks2 /\
+     tag_struct toks1 = tag_struct toks2 /\
+     map tok_np (filter (fun t => negb (is_text_tok t)) toks1) = map tok_np (filter (fun t => negb (is_text_tok t)) toks2) /\
+     (same_presence (fold_left (step is_space to_lower text_tags attr_prefix compile) pre init) s1 s2 post ->
+      map shape_no_text toks1 = map shape_no_text toks2 /\ length toks1 = length toks2)).
+Proof. exact HoleInvariant.text_hole_invariant. Qed.
+(* ... and any two strings without the delimiting quote inside a quoted attribute value: same tokens, same attribute
+   names, every other attribute value equal; only the value that holds the insertion differs, exactly by the insertion *)
+Theorem attr_hole_invariant : forall is_space to_lower text_tags attr_prefix (compile : attr -> bool),
+  (forall a1 a2, a_name a1 = a_name a2 -> a_value a1 = a_value a2 -> compile a1 = compile a2) ->
+  forall q pre s1 s2 post,
+  let S0 := fold_left (step is_space to_lower text_tags attr_prefix compile) pre init in
+  attr_ctx q S0 -> ~ In q s1 -> ~ In q s2 ->
+  (forall a1 a2, a_name a1 = hole_aname S0 -> a_name a2 = hole_aname S0 -> compile a1 = compile a2) ->
+  (exists e, scan is_space to_lower text_tags attr_prefix compile (pre ++ s1 ++ post) = inr e /\
+             scan is_space to_lower text_tags attr_prefix compile (pre ++ s2 ++ post) = inr e) \/
+  (exists toks1 toks2,
+     scan is_space to_lower text_tags attr_prefix compile (pre ++ s1 ++ post) = inl toks1 /\
+     scan is_space to_lower text_tags attr_prefix compile (pre ++ s2 ++ post) = inl toks2 /\
+     tag_struct toks1 = tag_struct toks2 /\ map shape_names toks1 = map shape_names toks2 /\ length toks1 = length toks2 /\
+     exists l T1 T2 r1 r2 la A1 A2 ra1 ra2,
+       toks1 = l ++ T1 :: r1 /\ toks2 = l ++ T2 :: r2 /\ map tok_np r1 = map tok_np r2 /\
+       t_kind T1 = KTag /\ t_kind T2 = KTag /\ t_name T1 = t_name T2 /\
+       t_attrs T1 = la ++ A1 :: ra1 /\ t_attrs T2 = la ++ A2 :: ra2 /\
+       map PrintScanDefs.ashape ra1 = map PrintScanDefs.ashape ra2 /\ a_name A1 = a_name A2 /\
+       a_value A1 = Some (hole_aval0 S0 ++ s1 ++ upto q post ++ [q]) /\
+       a_value A2 = Some (hole_aval0 S0 ++ s2 ++ upto q post ++ [q])).
+Proof. exact HoleInvariant.attr_hole_invariant. Qed.
+Print Assumptions structure_invariant.
+Print Assumptions text_hole_invariant.
+Print Assumptions attr_hole_invariant.
+(* the hypotheses are satisfiable, and necessary: HoleInvariant.text_hole_example_thm, attr_hole_example_thm,
+   text_hole_needs_nolt (an inserted <b> changes the structure), attr_hole_needs_noquote *)
 
 Example escape_example : escape [60;97;38;34;39;62] = [38;108;116;59;97;38;97;109;112;59;38;35;51;52;59;38;35;51;57;59;38;103;116;59]
   /\ unescape5 (escape [60;97;38;34;39;62;38;97;109;112;59]) = [60;97;38;34;39;62;38;97;109;112;59].
